@@ -1002,6 +1002,113 @@ fn shorten(s: &str) -> String {
     }
 }
 
+/// every transaction type x number of inputs / outputs (0..=3) x slip-type pattern, zero amounts,
+/// correctly signed by the sender: each delivered as a message from an authenticated and from an
+/// unauthenticated peer at two points of the honest script, then through a fetched block
+fn shape_sweep(u: &Uni, rep: &mut Report) {
+    use saito_core::core::consensus::slip::Slip;
+    let types = [
+        TransactionType::Normal,
+        TransactionType::Fee,
+        TransactionType::GoldenTicket,
+        TransactionType::ATR,
+        TransactionType::Vip,
+        TransactionType::SPV,
+        TransactionType::Issuance,
+        TransactionType::BlockStake,
+        TransactionType::Bound,
+    ];
+    let slip_pats: [[SlipType; 3]; 5] = [
+        [SlipType::Normal, SlipType::Normal, SlipType::Normal],
+        [SlipType::Bound, SlipType::Normal, SlipType::Bound],
+        [SlipType::Bound, SlipType::Bound, SlipType::Bound],
+        [SlipType::ATR, SlipType::Normal, SlipType::Normal],
+        [SlipType::BlockStake, SlipType::Normal, SlipType::Normal],
+    ];
+    let atk = key(3);
+    let mut cases: Vec<(TransactionType, usize, usize, usize, usize, u64, usize)> = vec![];
+    for ty in types {
+        for nf in 0..=3usize {
+            for nt in 0..=3usize {
+                for fp in 0..slip_pats.len() {
+                    for tp in [0usize, 1] {
+                        for (sender, pos) in [(XA, 0usize), (XU, 2)] {
+                            cases.push((ty, nf, nt, fp, tp, sender, pos));
+                        }
+                    }
+                }
+            }
+        }
+    }
+    let results = par_map(&cases, workers(), |_, &(ty, nf, nt, fp, tp, sender, pos)| {
+        let mut r = rep.child();
+        r.evaluations += 1;
+        let mut tx = Transaction::default();
+        tx.transaction_type = ty;
+        tx.timestamp = 1_500_000;
+        tx.data = if ty == TransactionType::GoldenTicket { vec![7u8; 97] } else { b"shape".to_vec() };
+        for i in 0..nf {
+            let mut sl = Slip::default();
+            sl.public_key = atk.public;
+            sl.amount = 0;
+            sl.slip_type = slip_pats[fp][i];
+            sl.slip_index = i as u8;
+            tx.from.push(sl);
+        }
+        for i in 0..nt {
+            let mut sl = Slip::default();
+            sl.public_key = atk.public;
+            sl.amount = 0;
+            sl.slip_type = slip_pats[tp][i];
+            sl.slip_index = i as u8;
+            tx.to.push(sl);
+        }
+        tx.sign(&atk.private);
+        let what = format!("TxShape/{:?}/from{}/to{}/{:?}/{:?}/{}", ty, nf, nt, slip_pats[fp][0], slip_pats[tp][0], who(sender));
+        let mut s = match start(u, false) {
+            Ok(s) => s,
+            Err(e) => {
+                r.machinery(e);
+                return r;
+            }
+        };
+        let mut hist: Vec<Ev> = vec![];
+        for _ in 0..pos {
+            hist.push(Ev::Honest);
+            let _ = apply(u, &mut s, Ev::Honest, &mut r.child(), &hist);
+            let _ = s.n.settle();
+        }
+        let ctx = json!({"shape": what, "honest_steps_before": pos});
+        let o = s.n.net(incoming(sender, &Message::Transaction(tx.clone())));
+        if !o.is_done() {
+            r.violate(&format!("handler-abort/{}", what), o.label(), ctx.clone());
+            return r;
+        }
+        for _ in 0..20 {
+            let Some(c) = s.n.pending().first().cloned() else { break };
+            match s.n.step(c) {
+                Some(Outcome::Done(())) | None => {}
+                Some(o) => {
+                    r.violate(&format!("handler-abort/{}/internal-{:?}", what, c), o.label(), ctx.clone());
+                    return r;
+                }
+            }
+        }
+        let o = s.n.tick_consensus(200_000);
+        if !o.is_done() {
+            r.violate(&format!("handler-abort/{}/consensus-timer", what), o.label(), ctx.clone());
+            return r;
+        }
+        let _ = s.n.settle();
+        r.outcome("shape-sweep:returned");
+        r.traces_validated += 1;
+        r
+    });
+    for r in results {
+        rep.merge(r);
+    }
+}
+
 pub fn main(tier: Tier, replay_file: Option<String>) -> i32 {
     let mut rep = Report::new("C11", tier.clone(), "model_checking");
     let u = match universe() {
@@ -1063,7 +1170,8 @@ pub fn main(tier: Tier, replay_file: Option<String>) -> i32 {
             rep.outcome_n(&format!("{}hostile<={}:end-states", tag, k), ex.terminals.len() as u64);
         }
     }
+    shape_sweep(&u, &mut rep);
     rep.sample(json!({"history": ["Honest", "X(M(3, GhostReqZero))", "Int(Verify)"]}));
-    rep.required_outcomes = vec!["full:hostile-free-end-states".into(), "lite:hostile-free-end-states".into()];
+    rep.required_outcomes = vec!["full:hostile-free-end-states".into(), "lite:hostile-free-end-states".into(), "shape-sweep:returned".into()];
     rep.finish()
 }
